@@ -75,14 +75,24 @@ def make_obj(i: str, v: int, big: bool = False, bad: bool = False):
         els += [model.Property("p%d" % k, model.datatypes.String, "x" * 40 + str(k)) for k in range(18)]
     sm = model.Submodel(i, submodel_element=els)
     if bad:
-        spoil(sm)
+        spoil(sm, bad)
     return sm
 
 
-def spoil(sm):
-    """Make the encoder reject the object: an xs:duration with mixed signs."""
+_MYINT: list = []
+
+
+def spoil(sm, how: Any = True):
+    """Make the encoder reject the object: an xs:duration with mixed signs (ValueError); "badkey": a value type that is an
+    application-defined subclass of xs:int, for which the encoder has no name (KeyError - the exception add() also uses for
+    "already stored")."""
     import dateutil.relativedelta as rd
     model, _ = _sdk()
+    if how == "badkey":
+        if not _MYINT:
+            _MYINT.append(type("MyInt", (model.datatypes.Int,), {}))
+        sm.submodel_element.add(model.Property("zz", _MYINT[0], _MYINT[0](3)))
+        return
     sm.submodel_element.add(model.Property("zz", model.datatypes.Duration, rd.relativedelta(months=1, days=-1)))
 
 
@@ -284,8 +294,11 @@ def canon_event(ev: List[Any], names: Dict[str, Any]) -> List[Any]:
 class Scenario:
     """A directory holding `n_others` other objects, possibly an old version of the target and a stale temporary file."""
 
-    def __init__(self, kind: str, n_others: int, payload: str, stale_tmp: bool, dup: bool = False):
+    def __init__(self, kind: str, n_others: int, payload: str, stale_tmp: bool, dup: bool = False, via: str = "add"):
+        """`via` (oracle only): the entry point of an add - add(x) | update([x]) | update(one-shot iterator) | store |= {x};
+        payload "badkey" (oracle only): the encoder rejects the object with a KeyError (a value type it has no name for)"""
         self.kind, self.n_others, self.payload, self.stale_tmp, self.dup = kind, n_others, payload, stale_tmp, dup
+        self.via = via
         _, self.lf = _sdk()
         self.dir = tempfile.mkdtemp(prefix="verif-c15-")
         self.docs: Dict[int, bytes] = {}       # tag -> complete serialisation
@@ -307,7 +320,7 @@ class Scenario:
             self.docs[4] = self.read(hash_of(TID) + ".json")
         self.new_ver = 8
         # the complete new document, produced in a scratch directory by the code itself
-        if payload != "bad":
+        if payload not in ("bad", "badkey"):
             self.docs[5] = self._scratch_doc(8)
         # a leftover of an earlier, interrupted write of the same identifier — produced by the code under test itself
         self.docs[6] = self._scratch_doc(6)
@@ -358,7 +371,10 @@ class Scenario:
         return out
 
     def describe(self) -> Dict[str, Any]:
-        return {"kind": self.kind, "n_others": self.n_others, "payload": self.payload, "stale_tmp": self.stale_tmp, "dup": self.dup}
+        d = {"kind": self.kind, "n_others": self.n_others, "payload": self.payload, "stale_tmp": self.stale_tmp, "dup": self.dup}
+        if self.via != "add":
+            d["via"] = self.via
+        return d
 
     def _scratch_doc(self, ver: int) -> bytes:
         d2 = tempfile.mkdtemp(prefix="verif-c15s-")
@@ -373,7 +389,7 @@ class Scenario:
     # one faulted run -------------------------------------------------------------------------------------
     def run(self, fault: Optional[List[Any]]) -> Dict[str, Any]:
         self.restore()
-        return self._raw_run(self.new_ver, fault, bad=self.payload == "bad")
+        return self._raw_run(self.new_ver, fault, bad=self.payload if self.payload in ("bad", "badkey") else False)
 
     def _raw_run(self, ver: int, fault: Optional[List[Any]], bad: bool = False) -> Dict[str, Any]:
         store = self.lf.LocalFileObjectStore(self.dir)
@@ -391,7 +407,7 @@ class Scenario:
                         "store": store, "x": None, "triggered": False}
             x.get_referable("v").value = ver
             if bad:
-                spoil(x)
+                spoil(x, bad)
             call = "commit"
         tr = Tracer(self.lf, self.dir, fault)
         tr.install(store)
@@ -400,7 +416,14 @@ class Scenario:
         try:
             try:
                 if call == "add":
-                    store.add(x)
+                    if self.via == "update":
+                        store.update([x])
+                    elif self.via == "update-iter":
+                        store.update(o for o in [x])
+                    elif self.via == "ior":
+                        store |= {x}
+                    else:
+                        store.add(x)
                 else:
                     x.commit()
             except Crash:
@@ -579,7 +602,7 @@ def check_case(case: Dict[str, Any], sc: Optional[Scenario] = None) -> Optional[
     own = sc is None
     d = case["scenario"]
     if own:
-        sc = Scenario(d["kind"], d["n_others"], d["payload"], d["stale_tmp"], d.get("dup", False))
+        sc = Scenario(d["kind"], d["n_others"], d["payload"], d["stale_tmp"], d.get("dup", False), d.get("via", "add"))
     try:
         f = case.get("fault")
         r0_events = case.get("events")
@@ -589,9 +612,13 @@ def check_case(case: Dict[str, Any], sc: Optional[Scenario] = None) -> Optional[
             return C.Failing(f"lfs-write:{d['kind']}:after-interrupted-write:target-unreadable",
                              "after an earlier interrupted write the stored object can no longer be read: " + r["raised"],
                              {"scenario": d, "fault": f})
-        lab = fault_label(events, f) if f else ("reject" if d["payload"] == "bad" else "none")
+        lab = fault_label(events, f) if f else ("reject" if d["payload"] in ("bad", "badkey") else "none")
         if d["payload"] == "bad" and f and r["raised"] == "ValueError":
             lab = "reject"
+        if d["payload"] == "badkey" and f and r["raised"] == "KeyError":
+            lab = "reject"
+        if d.get("via", "add") != "add":
+            lab = d["via"] + ":" + lab
 
         def fail(symptom, what, obs=None, req=None):
             return C.Failing(f"lfs-write:{d['kind']}:{lab}:{symptom}", what, {"scenario": d, "fault": f}, obs, req)
@@ -671,7 +698,12 @@ def oracle(ctx: C.Ctx, cov: C.Coverage) -> List[C.Failing]:
     sigs = set()
     rng = random.Random(f"C15-oracle:{ctx.seed}")
     runs = 0
-    for spec in scenarios(ctx.tier):
+    # (round 5) the other entry points of an insertion (bulk update with a list / a one-shot iterator, |=) and a payload the
+    # encoder rejects with the exception kind that also means "already stored"
+    extra = [("add", 1, "badkey", False, False, "add"), ("commit", 1, "badkey", False, False, "add")]
+    for via in ("update", "update-iter", "ior"):
+        extra += [("add", 1, pl, False, False, via) for pl in ("ok", "bad", "badkey")] + [("add", 1, "ok", False, True, via)]
+    for spec in scenarios(ctx.tier) + extra:
         sc = Scenario(*spec)
         try:
             events = sc.run(None)["events"]
